@@ -4,6 +4,7 @@
   one packet or exactly one parse error — the codec is applied per delivered frame and cannot affect framing.)
 -/
 import EasyNet.Props.C01
+import EasyNet.Lemmas.Resume
 namespace EasyNet
 
 /-- **C02 sentence 1, separator framers, copying consumer.**  For every byte stream whose one-go decoding reports
@@ -154,5 +155,65 @@ theorem C02_sep_paths_agree (sep : Bytes) (limit : Nat) (ke : Bool) (hsep : sep 
     exact absurd (hsafe Item.limit hit) (by simp)
   rw [(C02_sep_copy_chunking_independent sep limit ke hsep chunks hnl).1,
       (C02_sep_buffered_chunking_independent sep limit ke hsep hlim fills hsafe r hrun).1, hsame, hagree]
+
+/-- **C02 sentence 2, copying path: delivery resumes intact after a size rejection.**
+    The stream is `big ++ sep ++ tail`, `big` of any length (far over the limit, right at it, or under it) with no earlier
+    occurrence of the separator.  For *every* chunking: the items delivered are a non-empty group belonging to `big`
+    (size errors and/or fragments) followed by exactly what a fresh consumer delivers for `tail` — the first frame that
+    starts after the rejected frame's terminator, and all later ones, arrive intact, once, in order. -/
+theorem C02_sep_copy_resume_after_limit (sep : Bytes) (limit : Nat) (ke : Bool) (hsep : sep ≠ [])
+    (big tail : Bytes) (hbig : firstOcc sep (big ++ sep) = some big.length)
+    (chunks : List Bytes) (hcut : chunks.flatten = big ++ sep ++ tail) :
+    ∃ junk chunks', junk ≠ [] ∧ chunks'.flatten = tail ∧
+      (Consumer.run RU.init (RU.feed sep limit ke) Consumer.new chunks).2
+        = junk ++ (Consumer.run RU.init (RU.feed sep limit ke) Consumer.new chunks').2 := by
+  have R := RU.refines sep limit ke hsep
+  have L := RU.spec_laws sep limit ke hsep
+  have SS := RU.sepSpec sep limit ke hsep
+  obtain ⟨junk, cs', hj, hfl, h1, _⟩ := refRun_resume hsep SS L big tail hbig chunks [] 0 (Or.inl rfl) (Nat.zero_le _)
+    (by simpa using hcut)
+  refine ⟨junk, cs', hj, hfl, ?_⟩
+  rw [(Consumer.run_ref R chunks Consumer.new [] (Or.inl ⟨rfl, rfl⟩)).1,
+      (Consumer.run_ref R cs' Consumer.new [] (Or.inl ⟨rfl, rfl⟩)).1, h1]
+
+/-- … and when `tail` itself decodes without size error, what follows the junk is its frame-by-frame decoding. -/
+theorem C02_sep_copy_resume_then_decode (sep : Bytes) (limit : Nat) (ke : Bool) (hsep : sep ≠ [])
+    (big tail : Bytes) (hbig : firstOcc sep (big ++ sep) = some big.length)
+    (htail : NoLimit (decodeW (RU.spec sep limit ke) tail).2)
+    (chunks : List Bytes) (hcut : chunks.flatten = big ++ sep ++ tail) :
+    ∃ junk, junk ≠ [] ∧
+      (Consumer.run RU.init (RU.feed sep limit ke) Consumer.new chunks).2
+        = junk ++ (decodeW (RU.spec sep limit ke) tail).2 := by
+  obtain ⟨junk, cs', hj, hfl, h1⟩ := C02_sep_copy_resume_after_limit sep limit ke hsep big tail hbig chunks hcut
+  refine ⟨junk, hj, ?_⟩
+  rw [h1, (C02_sep_copy_chunking_independent sep limit ke hsep cs' (by rw [hfl]; exact htail)).1, hfl]
+
+/-- **C02 sentence 2, buffered path** (repaired `_buffered_readuntil`): same statement for every history of fitting fills. -/
+theorem C02_sep_buffered_resume_after_limit (sep : Bytes) (cap : Nat) (ke : Bool) (hsep : sep ≠ []) (hcap : 0 < cap)
+    (big tail : Bytes) (hbig : firstOcc sep (big ++ sep) = some big.length)
+    (htail : AllOk (BRU.okFrame sep cap ke) (decodeW (BRU.spec sep cap ke) tail).2)
+    (fills : List Bytes) (hcut : fills.flatten = big ++ sep ++ tail)
+    (r : BufConsumer BRUState × List Item)
+    (hrun : BufConsumer.runFills BRU.init 0 cap (BRU.feed true sep ke) BufConsumer.new fills = some r) :
+    ∃ junk, junk ≠ [] ∧ r.2 = junk ++ (decodeW (BRU.spec sep cap ke) tail).2 := by
+  have R := BRU.refines sep cap ke hsep
+  have L := BRU.spec_laws sep cap ke hsep
+  have SS := BRU.sepSpec sep cap ke
+  have hnew : BufConsumer.Rel (·.buflen) (BRU.spec sep cap ke) (BRU.Inv sep cap) cap
+      (BufConsumer.new : BufConsumer BRUState) [] := ⟨rfl, Or.inl ⟨rfl, rfl, rfl, Or.inl rfl⟩⟩
+  have hsim := BufConsumer.runFills_ref cap R hcap fills BufConsumer.new [] hnew r hrun
+  obtain ⟨junk, cs', hj, hfl, h1, _⟩ := refRun_resume hsep SS L big tail hbig fills [] 0 (Or.inl rfl) (Nat.zero_le _)
+    (by simpa using hcut)
+  refine ⟨junk, hj, ?_⟩
+  rw [hsim.1, h1]
+  have hind := refRun_chunk_independent L cs' [] (Or.inl rfl) (by simpa [hfl] using htail)
+  simp only [List.nil_append, hfl] at hind
+  rw [hind]
+
+/-- non-vacuity: limit 4, frame `aaaaaaaa` (8 bytes) + CRLF + `ok` + CRLF, cut so that the CR arrives with the overrun -/
+example : firstOcc [13, 10] (([97, 97, 97, 97, 97, 97, 97, 97] : Bytes) ++ [13, 10]) = some 8 ∧
+    (Consumer.run RU.init (RU.feed [13, 10] 4 false) Consumer.new
+      [[97, 97, 97, 97, 97, 97, 97, 97, 13], [10, 111, 107, 13, 10]]).2 = [.limit, .frame [], .frame [111, 107]] := by
+  decide +kernel
 
 end EasyNet
